@@ -641,11 +641,43 @@ def r20_9(chk):
     chk.floor("R20.9", 3, "key ordering + two delegations")
 
 
+def _unpacked_zip_star(fn):
+    """`a, b = [list(]zip(*X)[)]`: unpacking the transposition of a possibly empty sequence of pairs"""
+    out = []
+    for st in walk_no_nested(fn):
+        if isinstance(st, ast.Assign) and isinstance(st.targets[0], (ast.Tuple, ast.List)):
+            v = st.value
+            if isinstance(v, ast.Call) and call_name(v) in ("list", "tuple") and v.args:
+                v = v.args[0]
+            if isinstance(v, ast.Call) and call_name(v) == "zip" and any(isinstance(a, ast.Starred) for a in v.args):
+                out.append(st)
+    return out
+
+
+def r20_10(chk):
+    chk.rule("R20.10", "zero rows are rows too: the relational operations of Table never unpack `zip(*pairs)` into a fixed number of names -- the transposition of an empty list of pairs is empty, so the unpacking raises for a table without rows where a list of row tuples simply gives the empty result")
+    m = chk.repo.module(TABLE)
+    ci = m.cls("Table")
+    n = 0
+    for name in ("cross_join", "inner_join", "joined", "appended", "transposed", "filtered", "sorted", "count_unique", "distinct_values", "get_columns", "with_new_column"):
+        fn = ci.methods.get(name)
+        if not isinstance(fn, ast.FunctionDef):
+            continue
+        n += 1
+        bad = _unpacked_zip_star(fn)
+        chk.decide(not bad, "R20.10", key(m, f"Table.{name}", "no unpacking of zip(*pairs)"), m.loc(bad[0] if bad else fn), "no fixed-arity unpacking of a transposed pair list", f"`{norm(bad[0])[:80] if bad else ''}` fails with 'not enough values to unpack' when there are no pairs, i.e. when a table has no rows")
+    probe = ast.parse("def f(a, b):\n    x, y = list(zip(*product(a, b)))\n").body[0]
+    if not _unpacked_zip_star(probe):
+        raise AnalysisError("R20.10 self-probe failed")
+    chk.floor("R20.10", 8, "relational operations of Table")
+
+
 def try_kind(e):
     return e.value if isinstance(e, ast.Constant) else None
 
 
 def run(chk):
+    r20_10(chk)
     r20_9(chk)
     r20_7(chk)
     r20_8(chk)
